@@ -14,6 +14,7 @@ import (
 	"fmt"
 	"math"
 	"os"
+	"runtime/debug"
 	"sort"
 	"strconv"
 	"strings"
@@ -176,12 +177,14 @@ type obs struct {
 }
 
 var lastPanic any
+var lastStack string
 
 func guard(f func()) (panicked bool) {
 	defer func() {
 		if r := recover(); r != nil {
 			panicked = true
 			lastPanic = r
+			lastStack = string(debug.Stack())
 		}
 	}()
 	f()
@@ -791,7 +794,7 @@ func (h *hist) exec(p op) {
 	if panicked {
 		h.fail("C13", h.c.algo+":"+p.kind+":panic", p.String())
 		if os.Getenv("MUH_PANICMSG") != "" {
-			fmt.Fprintf(os.Stderr, "PANIC %v\n", lastPanic)
+			fmt.Fprintf(os.Stderr, "PANIC %v\n%s\n", lastPanic, lastStack)
 		}
 	}
 	kind := strings.Fields(res)[1]
